@@ -236,6 +236,7 @@ def run(fb, rep, tier):
     c3_pairing(fb, rep)
     c4_shortcuts(fb, rep)
     c5_gives_check(fb, rep)
+    c6_tables(fb, rep)
 
 
 # --------------------------------------------------------------------------- .1 mask algebra
@@ -1422,3 +1423,197 @@ def _piece_const(t):
         if va and vb and colour_of(va) == 'b' and colour_of(vb) == 'w' and (va - 1) % 6 == (vb - 1) % 6:
             return 'enemy', LETTER[(va - 1) % 6 + 1]
     return None
+
+
+# --------------------------------------------------------------------------- .6 geometry tables
+
+INF = 10 ** 9
+
+
+def _var_range(f, vid, sd, incdec, depth=0):
+    """Interval of a local of a table initialiser from its definition: file / rank accessors are 0..7, a
+    loop counter starts at its initial value and moves one way."""
+    if depth > 6:
+        return (-INF, INF)
+    inits = [v.get('init') for _, _, e in f.events() if e.get('k') == 'decl' for v in e.get('vars', []) if v['id'] == vid]
+    if len(inits) != 1 or inits[0] is None:
+        return (-INF, INF)
+    lo, hi = _expr_range(f, inits[0], sd, incdec, {}, depth + 1)
+    dirs = incdec.get(vid, set())
+    asg = any(e.get('k') == 'asg' and isinstance(e.get('l'), dict) and e['l'].get('id') == vid for _, _, e in f.events())
+    if asg or dirs == {'++', '--'}:
+        return (-INF, INF)
+    if dirs == {'++'}:
+        return (lo, INF)
+    if dirs == {'--'}:
+        return (-INF, hi)
+    return (lo, hi)
+
+
+def _expr_range(f, t, sd, incdec, guards, depth=0):
+    t = unwrap(t)
+    if not isinstance(t, dict):
+        return (-INF, INF)
+    if 'cv' in t:
+        return (t['cv'], t['cv'])
+    if t.get('k') == 'var' and 'id' in t:
+        lo, hi = _var_range(f, t['id'], sd, incdec, depth)
+        glo, ghi = guards.get(t['id'], (-INF, INF))
+        return (max(lo, glo), min(hi, ghi))
+    if t.get('k') == 'call' and cname(t) in ('Square::getX', 'Square::getY'):
+        return (0, 7)
+    if t.get('k') == 'bin' and t.get('op') in ('+', '-'):
+        a = _expr_range(f, t['l'], sd, incdec, guards, depth)
+        b = _expr_range(f, t['r'], sd, incdec, guards, depth)
+        if t['op'] == '+':
+            return (max(-INF, a[0] + b[0]), min(INF, a[1] + b[1]))
+        return (max(-INF, a[0] - b[1]), min(INF, a[1] - b[0]))
+    return (-INF, INF)
+
+
+def _guard_ranges(f, b):
+    """{var id: (lo, hi)} implied by the relational guards (incl. enclosing loop conditions) of block b."""
+    out = {}
+    for g, side in G.guard_trees(f, set(f.blocks), b, skip_loops=False):
+        g = strip_casts(g)
+        if not (isinstance(g, dict) and g.get('k') == 'bin' and g.get('op') in ('<', '<=', '>', '>=')):
+            continue
+        l, r = strip_casts(g['l']), strip_casts(g['r'])
+        op = g['op']
+        if isinstance(r, dict) and r.get('k') == 'var' and isinstance(l, dict) and 'cv' in l:
+            l, r = r, l
+            op = {'<': '>', '<=': '>=', '>': '<', '>=': '<='}[op]
+        if not (isinstance(l, dict) and l.get('k') == 'var' and 'id' in l and isinstance(r, dict) and 'cv' in r):
+            continue
+        if not side:
+            op = {'<': '>=', '<=': '>', '>': '<=', '>=': '<'}[op]
+        c = r['cv']
+        lo, hi = out.get(l['id'], (-INF, INF))
+        if op == '<':
+            hi = min(hi, c - 1)
+        elif op == '<=':
+            hi = min(hi, c)
+        elif op == '>':
+            lo = max(lo, c + 1)
+        else:
+            lo = max(lo, c)
+        out[l['id']] = (lo, hi)
+    return out
+
+
+def square_ctor_ranges(fb, rep, clause, only_tables=None):
+    """K12: every Square(file, rank) built in BitBoard::staticInitialize has both coordinates in 0..7
+    (a file of 8 or -1 silently wraps into the neighbouring rank)."""
+    f = fb.find1('BitBoard::staticInitialize')
+    if rep.need(clause, f, 'BitBoard::staticInitialize') is None:
+        return
+    sd = single_defs(f)
+    incdec = {}
+    for _, _, e in f.events():
+        if e.get('k') == 'incdec' and isinstance(e.get('e'), dict) and 'id' in e['e']:
+            incdec.setdefault(e['e']['id'], set()).add(e.get('op'))
+    n = 0
+    seen = {}
+    for b, i, e in f.events():
+        if not (e.get('k') == 'ctor' and e.get('cls') == 'Square' and len(e.get('args', [])) == 2):
+            continue
+        # which table the square goes into: the next array store reachable in the same loop body
+        tables = set()
+        st = [b]
+        vis = set()
+        while st:
+            x = st.pop()
+            if x in vis:
+                continue
+            vis.add(x)
+            for ev in f.blocks[x]['ev']:
+                if ev.get('k') == 'asg' and isinstance(strip_casts(ev.get('l')), dict) and strip_casts(ev['l']).get('k') == 'idx':
+                    nm = ctext(strip_casts(ev['l']).get('b') or strip_casts(ev['l']).get('a') or {})
+                    tables.add(nm)
+            if not tables:
+                st.extend(s_ for s_ in f.blocks[x]['succ'] if s_ != f.exit)
+        if only_tables is not None and not (tables & set(only_tables)):
+            continue
+        guards = _guard_ranges(f, b)
+        rs = [_expr_range(f, a, sd, incdec, guards) for a in e['args']]
+        ok = all(0 <= lo and hi <= 7 for lo, hi in rs)
+        n += 1
+        key = (show(e, 60), tuple(sorted(tables)))
+        seen[key] = seen.get(key, 0) + 1
+        rep.ob(clause, 'K12 coordinate range', 'staticInitialize: %s feeding %s (#%d) has file and rank inside 0..7' % (show(e, 60), '/'.join(sorted(tables)) or 'a table', seen[key]), ok,
+               R.site(f, e), 'file %s, rank %s' % (rs[0], rs[1]), f.sname)
+    return n
+
+
+def _leaper_targets(kind):
+    """{origin square: set of attacked squares} for the non-sliding attack tables."""
+    out = {}
+    steps = {'K': [(dx, dy) for dx in (-1, 0, 1) for dy in (-1, 0, 1) if (dx, dy) != (0, 0)],
+             'N': [(1, 2), (2, 1), (-1, 2), (-2, 1), (1, -2), (2, -1), (-1, -2), (-2, -1)],
+             'wP': [(-1, 1), (1, 1)], 'bP': [(-1, -1), (1, -1)]}[kind]
+    for s in range(64):
+        x, y = s % 8, s // 8
+        out[s] = {(y + dy) * 8 + x + dx for dx, dy in steps if 0 <= x + dx <= 7 and 0 <= y + dy <= 7}
+    return out
+
+
+LEAPER_TABLES = {'BitBoard::kingAttacksTable': 'K', 'BitBoard::knightAttacksTable': 'N',
+                 'BitBoard::wPawnAttacksTable': 'wP', 'BitBoard::bPawnAttacksTable': 'bP'}
+
+
+def leaper_tables(fb, rep, clause):
+    """K12 bit-level: the shift-and-mask formulas that fill the king / knight / pawn attack tables produce,
+    for every origin square, exactly the squares a king / knight / pawn attacks from there."""
+    f = fb.find1('BitBoard::staticInitialize')
+    if rep.need(clause, f, 'BitBoard::staticInitialize') is None:
+        return 0
+    n = 0
+    for b, i, e in f.events():
+        if e.get('k') != 'asg' or e.get('op') != '=':
+            continue
+        l = strip_casts(e.get('l'))
+        if not (isinstance(l, dict) and l.get('k') == 'call' and l.get('op') == '[]' and isinstance(l.get('recv'), dict) and l['recv'].get('q') in LEAPER_TABLES):
+            continue
+        kind = LEAPER_TABLES[l['recv']['q']]
+        idx = ctext(l['args'][0])
+        track = B.relevant_ids(f, B.var_ids(e.get('r')))
+        # the loop variable holding the origin square stays symbolic
+        track = {v for v in track if v not in B.var_ids(l['args'][0])}
+        try:
+            stores = B.sym_stores(f, (b, i), track)
+        except Unsupported as ex:
+            rep.broken(clause, str(ex))
+            continue
+        n += 1
+        targets = _leaper_targets(kind)
+        hot = 'onehot:' + idx
+        ok = True
+        detail = ''
+        for store, _ in stores:
+            val = subst(e['r'], store)
+
+            def build(sem, t, _val=val):
+                want = 0
+                for s_ in range(64):
+                    if t in targets[s_]:
+                        want |= sem.col(hot, s_)
+                E = sem.ev(_val, t)
+                return [('sound@%d' % t, E, want), ('complete@%d' % t, want, E)]
+            try:
+                bad = [(lbl, w) for lbl, w in decide(build, runtime_atom_of) if w is not None]
+            except Unsupported as ex:
+                bad = [('unsupported: %s' % ex, {})]
+            if bad:
+                ok = False
+                detail = 'formula %s; %s %s' % (ctext(val), bad[0][0], fmt_witness(bad[0][1]) if bad[0][1] else '')
+        rep.ob(clause, 'K12 table formula', 'staticInitialize: %s[sq] is exactly the %s attack set of sq for all 64 squares' % (
+            l['recv']['q'].split('::')[-1], {'K': 'king', 'N': 'knight', 'wP': 'white pawn', 'bP': 'black pawn'}[kind]), ok, R.site(f, e), detail, f.sname)
+    return n
+
+
+def c6_tables(fb, rep):
+    clause = 'C01.6'
+    n = square_ctor_ranges(fb, rep, clause)
+    rep.floor(clause, 'Square(file, rank) constructions in the table initialiser', n or 0, 10)
+    m = leaper_tables(fb, rep, clause)
+    rep.floor(clause, 'non-sliding attack tables filled by shift formulas', m, 4)
